@@ -26,7 +26,12 @@ import (
 const rule = "events generated from every public field constructor (Bool..Strings, Ptr variants, Any over its dispatch arms, Reflect zoo, custom ArrayValue, Object to depth 4, FieldsFromMap) with hostile keys/strings and boundary numbers; non-trivial = a container directly after a scalar or after an empty container, or a key/string needing escaping or replacement, or a boundary number; distinct by the rendered description of the event"
 
 var levels = []log.Level{log.NoneLevel, log.TraceLevel, log.DebugLevel, log.InfoLevel, log.WarnLevel, log.ErrorLevel, log.PanicLevel, log.FatalLevel, log.MaxLevel,
-	log.RegisterLevel(1, "lowest"), log.RegisterLevel(350, "Notice"), log.RegisterLevel(450, "alert"), log.RegisterLevel(998, "TOP")}
+	log.RegisterLevel(1, "lowest"), log.RegisterLevel(350, "Notice"), log.RegisterLevel(450, "alert"), log.RegisterLevel(998, "TOP"),
+	// distinct levels that share a code (an alias next to a built-in level, a second custom level at
+	// the same severity, the zero Level next to NONE): the name is the event's, not the code's
+	log.RegisterLevel(400, "WARNING"), log.RegisterLevel(300, "Information"), log.RegisterLevel(450, "alarm"), {},
+	// a level name is a string value of the object like any other
+	log.RegisterLevel(500, "err\"x\\y\n\t\x01"), log.RegisterLevel(610, "é日本<&>\x7f")}
 
 func known(sig string) bool {
 	for _, k := range strings.Split(os.Getenv("VERIF_KNOWN"), ",") {
@@ -134,7 +139,7 @@ func checkJSONLine(line []byte, h header, fileLine string, ctxExp, fldExp []vk.E
 			return fmt.Errorf("member %d is %q (kind %c), expected string member %q: %q", i, ms[i].Key, ms[i].Val.Kind, k, body)
 		}
 	}
-	if !strings.EqualFold(ms[0].Val.Str, h.Level.Name()) {
+	if !strings.EqualFold(ms[0].Val.Str, vk.SanitizeString(h.Level.Name())) {
 		return fmt.Errorf("level is %q, event level is %q", ms[0].Val.Str, h.Level.Name())
 	}
 	if ms[1].Val.Str != vk.ExpTime(h.Time) {
